@@ -228,23 +228,129 @@ theorem implied_sets_eq_spec (n : EName) (x : Str) :
     unfold cursoryImpliedEnd
     rw [htmlIn_eq, memName_of_sameSet (b := rows "html" Spec.TreeTables.impliedEnd) (by decide +kernel), ← htmlIn_eq]
     rfl
-  refine ⟨?_, ?_, ?_, ?_⟩
+  have hx : ∀ y : Str, impliedExcept y n = Spec.TreeAlgo.impliedEndTag (some y) (toName n) := by
+    intro y
+    show (if (n.ns == nsHtml && n.loc == y) = true then false else cursoryImpliedEnd n) =
+      (Spec.TreeAlgo.inHtml Spec.TreeTables.impliedEnd (toName n) && !(n.ns == nsHtml && (some n.loc == some y)))
+    rw [← hc, Option.some_beq_some]
+    by_cases hB : (n.ns == nsHtml) = true <;> by_cases hC : (n.loc == y) = true <;> simp [hB, hC]
+  refine ⟨?_, hx x, ?_, ?_⟩
   · show cursoryImpliedEnd n = (Spec.TreeAlgo.inHtml Spec.TreeTables.impliedEnd (toName n) &&
       !(n.ns == nsHtml && (some n.loc == (none : Option Str))))
     rw [← hc]; simp
-  · show (if (n.ns == nsHtml && n.loc == x) = true then false else cursoryImpliedEnd n) =
-      (Spec.TreeAlgo.inHtml Spec.TreeTables.impliedEnd (toName n) && !(n.ns == nsHtml && (some n.loc == some x)))
-    rw [← hc, Option.some_beq_some]
-    by_cases hB : (n.ns == nsHtml) = true <;> by_cases hC : (n.loc == x) = true <;> simp [hB, hC]
-  · show (if (n.ns == nsHtml && (("p".toList == n.loc) || false)) = true then false else cursoryImpliedEnd n) =
-      (Spec.TreeAlgo.inHtml Spec.TreeTables.impliedEnd (toName n) &&
-        !(n.ns == nsHtml && (some n.loc == some "p".toList)))
-    rw [← hc, Option.some_beq_some, Bool.or_false, show ("p".toList == n.loc) = (n.loc == "p".toList) from BEq.comm]
-    by_cases hB : (n.ns == nsHtml) = true <;> by_cases hC : (n.loc == "p".toList) = true <;> simp [hB, hC]
+  · have h2 : impliedExceptP n = impliedExcept "p".toList n := by
+      show (if (n.ns == nsHtml && (("p".toList == n.loc) || false)) = true then false else cursoryImpliedEnd n) =
+        (if (n.ns == nsHtml && n.loc == "p".toList) = true then false else cursoryImpliedEnd n)
+      generalize "p".toList = y
+      rw [Bool.or_false, show (y == n.loc) = (n.loc == y) from BEq.comm]
+    rw [h2]; exact hx _
   · unfold thoroughImpliedEnd cursoryImpliedEnd
     rw [plus_eq, htmlIn_eq, ← memName_append,
       memName_of_sameSet (b := rows "html" (Spec.TreeTables.impliedEnd ++ Spec.TreeTables.impliedEndThoroughExtra))
         (by decide +kernel), ← htmlIn_eq]
     rfl
+
+
+/-! ### (d) reset the insertion mode appropriately -/
+
+def toSpecMode : Mode → Spec.TreeAlgo.Mode
+  | .initial => .initial | .beforeHtml => .beforeHtml | .beforeHead => .beforeHead | .inHead => .inHead
+  | .inHeadNoscript => .inHeadNoscript | .afterHead => .afterHead | .inBody => .inBody | .text => .text
+  | .inTable => .inTable | .inTableText => .inTableText | .inCaption => .inCaption
+  | .inColumnGroup => .inColumnGroup | .inTableBody => .inTableBody | .inRow => .inRow | .inCell => .inCell
+  | .inTemplate => .inTemplate | .afterBody => .afterBody | .inFrameset => .inFrameset
+  | .afterFrameset => .afterFrameset | .afterAfterBody => .afterAfterBody
+  | .afterAfterFrameset => .afterAfterFrameset
+
+/-- one iteration of the model's loop on the name `n` of the node under inspection, as a pure
+function: `some r` = return `r` (`none` inside = the `unwrap` panic on an empty template-mode
+stack), `none` = go on with the next node -/
+def modelResetStep (n : EName) (last : Bool) (tm : Option Mode) (headNone : Bool) : Option (Option Mode) :=
+  if n.ns != nsHtml then none
+  else if isOneOf n.loc ["td", "th"] && !last then some (some .inCell)
+  else if isName n.loc "tr" then some (some .inRow)
+  else if isOneOf n.loc ["tbody", "thead", "tfoot"] then some (some .inTableBody)
+  else if isName n.loc "caption" then some (some .inCaption)
+  else if isName n.loc "colgroup" then some (some .inColumnGroup)
+  else if isName n.loc "table" then some (some .inTable)
+  else if isName n.loc "template" then some tm
+  else if isName n.loc "head" then (if !last then some (some .inHead) else none)
+  else if isName n.loc "body" then some (some .inBody)
+  else if isName n.loc "frameset" then some (some .inFrameset)
+  else if isName n.loc "html" then (if headNone then some (some .beforeHead) else some (some .afterHead))
+  else none
+
+/-- the same iteration in the standard's words -/
+def specResetStep (n : Spec.TreeAlgo.Name) (last : Bool) (tm : Option Spec.TreeAlgo.Mode) (headNull : Bool) :
+    Option (Option Spec.TreeAlgo.Mode) :=
+  if (n.isHtml "td" || n.isHtml "th") && !last then some (some .inCell)
+  else if n.isHtml "tr" then some (some .inRow)
+  else if n.isHtml "tbody" || n.isHtml "thead" || n.isHtml "tfoot" then some (some .inTableBody)
+  else if n.isHtml "caption" then some (some .inCaption)
+  else if n.isHtml "colgroup" then some (some .inColumnGroup)
+  else if n.isHtml "table" then some (some .inTable)
+  else if n.isHtml "template" then some tm
+  else if n.isHtml "head" && !last then some (some .inHead)
+  else if n.isHtml "body" then some (some .inBody)
+  else if n.isHtml "frameset" then some (some .inFrameset)
+  else if n.isHtml "html" then (if headNull then some (some .beforeHead) else some (some .afterHead))
+  else if last then some (some .inBody)
+  else none
+
+theorem isName_comm (x : Str) (s : String) : isName x s = (x == s.toList) := BEq.comm
+
+theorem isHtml_eq (n : EName) (s : String) :
+    (toName n).isHtml s = (n.ns == nsHtml && isName n.loc s) := by
+  rw [isName_comm]; rfl
+
+theorem isName_false {loc : Str} {s : String} (h : ¬ loc = s.toList) : isName loc s = false := by
+  simp only [isName, beq_eq_false_iff_ne, ne_eq]; exact fun e => h e.symm
+
+/-- the two step functions agree (`last` nodes that the model passes on end the loop: the rest of
+the stack is empty and the model's `[]` case answers "in body") -/
+theorem resetStep_eq (n : EName) (last : Bool) (tm : Option Mode) (headNone : Bool) :
+    specResetStep (toName n) last (tm.map toSpecMode) headNone
+      = match modelResetStep n last tm headNone with
+        | some r => some (r.map toSpecMode)
+        | none => if last then some (some .inBody) else none := by
+  simp only [specResetStep, modelResetStep, isHtml_eq, isOneOf, List.any_cons, List.any_nil, Bool.or_false,
+    ← isName.eq_1]
+  by_cases hns : (n.ns == nsHtml) = true
+  · have hns' : (n.ns != nsHtml) = false := by simp [bne, hns]
+    simp only [hns, hns', Bool.true_and, Bool.false_eq_true, if_false]
+    obtain ⟨ns, loc⟩ := n
+    simp only
+    by_cases h0 : loc = "td".toList
+    · subst h0; cases last <;> cases headNone <;> cases tm <;> simp [isName, toSpecMode]
+    by_cases h1 : loc = "th".toList
+    · subst h1; cases last <;> cases headNone <;> cases tm <;> simp [isName, toSpecMode]
+    by_cases h2 : loc = "tr".toList
+    · subst h2; cases last <;> cases headNone <;> cases tm <;> simp [isName, toSpecMode]
+    by_cases h3 : loc = "tbody".toList
+    · subst h3; cases last <;> cases headNone <;> cases tm <;> simp [isName, toSpecMode]
+    by_cases h4 : loc = "thead".toList
+    · subst h4; cases last <;> cases headNone <;> cases tm <;> simp [isName, toSpecMode]
+    by_cases h5 : loc = "tfoot".toList
+    · subst h5; cases last <;> cases headNone <;> cases tm <;> simp [isName, toSpecMode]
+    by_cases h6 : loc = "caption".toList
+    · subst h6; cases last <;> cases headNone <;> cases tm <;> simp [isName, toSpecMode]
+    by_cases h7 : loc = "colgroup".toList
+    · subst h7; cases last <;> cases headNone <;> cases tm <;> simp [isName, toSpecMode]
+    by_cases h8 : loc = "table".toList
+    · subst h8; cases last <;> cases headNone <;> cases tm <;> simp [isName, toSpecMode]
+    by_cases h9 : loc = "template".toList
+    · subst h9; cases last <;> cases headNone <;> cases tm <;> simp [isName, toSpecMode]
+    by_cases h10 : loc = "head".toList
+    · subst h10; cases last <;> cases headNone <;> cases tm <;> simp [isName, toSpecMode]
+    by_cases h11 : loc = "body".toList
+    · subst h11; cases last <;> cases headNone <;> cases tm <;> simp [isName, toSpecMode]
+    by_cases h12 : loc = "frameset".toList
+    · subst h12; cases last <;> cases headNone <;> cases tm <;> simp [isName, toSpecMode]
+    by_cases h13 : loc = "html".toList
+    · subst h13; cases last <;> cases headNone <;> cases tm <;> simp [isName, toSpecMode]
+    · simp only [isName_false h0, isName_false h1, isName_false h2, isName_false h3, isName_false h4, isName_false h5, isName_false h6, isName_false h7, isName_false h8, isName_false h9, isName_false h10, isName_false h11, isName_false h12, isName_false h13, Bool.or_false, Bool.false_and, Bool.false_eq_true, if_false]
+  · have hns' : (n.ns != nsHtml) = true := by simpa [bne] using hns
+    have hf : (n.ns == nsHtml) = false := by simpa using hns
+    simp [hf, hns']
 
 end H5V.Lemmas.HtmlTBSpec
